@@ -225,6 +225,16 @@ class World(object):
                     host.h_entering(m)
         return rec
 
+    def drive(self, F, sid, obj):
+        """Thread worlds: run a coroutine / generator to completion from synchronous code."""
+        F.pos = sid
+        self.genlikes.append(obj)
+        try:
+            while True:
+                obj.send(None)
+        except StopIteration as e:
+            return e.value
+
     def park_raise(self, F, pid):
         """Thread worlds: park, and raise when released."""
         self.rel()
